@@ -3,7 +3,7 @@
    Tables, dispatch bounds and low-end constants come from gen/Tables.v = the current source text of /repo. *)
 From Coq Require Import ZArith.
 Require Import C12.gen.Tables.
-From C12 Require Import PrimeB Model ProofsSweep ProofsTable ProofsTab12 ProofsPrimes16 ProofsNext ProofsFactor ProofsDivisors ProofsPower.
+From C12 Require Import PrimeB Model ProofsSweep ProofsTable ProofsTab12 ProofsPrimes16 ProofsNext ProofsFactor ProofsDivisors ProofsPower ProofsComplete ProofsSetForms.
 Local Open Scope Z_scope.
 
 Theorem C12_isprime_exact_below_65536 : Isprime_table_stmt.          Proof. exact isprime_table. Qed.
@@ -48,3 +48,9 @@ Theorem C12_isprimepower_sound :
   forall isprime root, isprime_sound isprime -> root_sound root -> Isprimepower_sound_stmt isprime root.
 Proof. exact isprimepower_sound. Qed.
 Print Assumptions C12_isprimepower_sound.
+Theorem C12_isprimepower_complete : Isprimepower_complete_stmt.            Proof. exact isprimepower_complete. Qed.
+Print Assumptions C12_isprimepower_complete.
+Theorem C12_write_sign_and_factor_list : Write_stmt.                       Proof. exact write_correct. Qed.
+Print Assumptions C12_write_sign_and_factor_list.
+Theorem C12_set_one_container_distinct_factors : Set1_stmt.                Proof. exact set1_correct. Qed.
+Print Assumptions C12_set_one_container_distinct_factors.
